@@ -166,6 +166,7 @@ type ClientProc struct {
 	StdoutCut int64 // stdout size at process exit
 	Cancel    context.CancelFunc
 	Panic     string
+	MaprMode  int // clients.MaprClientMode for Kind "map"
 	started   time.Time
 }
 
@@ -228,7 +229,7 @@ func (w *World) RunClient(p *ClientProc, separateServer bool) {
 		case "tail":
 			c, err = clients.NewTailClient(args)
 		case "map":
-			c, err = clients.NewMaprClient(args, clients.DefaultMode)
+			c, err = clients.NewMaprClient(args, clients.MaprClientMode(p.MaprMode))
 		case "health":
 			c, err = clients.NewHealthClient(args)
 		default:
